@@ -53,7 +53,7 @@ pub fn gen_call(
                     &Expected::from(right),
                     env,
                 );
-                generate(right, &env_assigned_to, ctx, constr)?;
+                generate(right, &env_assigned_to.is_expr(true), ctx, constr)?;
                 generate(left, &env_assigned_to, ctx, constr)?;
                 Ok(env_assigned_to)
             } else {
